@@ -15,6 +15,8 @@ import (
 	"fmt"
 	"math/rand"
 	"os"
+	"runtime/debug"
+	"runtime/pprof"
 	"sort"
 	"strings"
 	"sync"
@@ -104,11 +106,14 @@ func casesFor(n, t uint8, thorough bool) caseList {
 			}
 		}
 	} else {
-		combos = []sdt{{sizeIdx(4096), 0, 0}, {sizeIdx(512), 0, 0}, {sizeIdx(1232), 1, 1}, {sizeIdx(0), 1, 0}}
+		combos = []sdt{{sizeIdx(4096), 0, 0}, {sizeIdx(512), 1, 1}}
 	}
 	for v := uint8(1); v < nv; v++ {
 		for o := uint8(1); o < no; o++ {
-			for _, x := range combos {
+			for i, x := range combos {
+				if !thorough && ((v == 1 && i >= 2) || (v > 1 && i >= 1)) {
+					break // quick: two combinations with version 0, one with an unsupported version
+				}
 				add("B:options*version*size-do-transport", qcase{ver: v, opts: o, size: x.s, do: x.d, tcp: x.t})
 			}
 		}
@@ -120,6 +125,9 @@ func casesFor(n, t uint8, thorough bool) caseList {
 				for cl := uint8(0); cl < uint8(len(classes)); cl++ {
 					for ex := uint8(0); ex < uint8(len(extras)); ex++ {
 						for ci := uint8(0); ci < uint8(len(clients)); ci++ {
+							if !thorough && ci > 0 {
+								break // quick: the client address only alone and in pairs (D)
+							}
 							add("C:opcode*qdcount*class*extra*client", qcase{ver: v, op: op, qd: qd, class: cl, extra: ex, client: ci})
 						}
 					}
@@ -130,6 +138,8 @@ func casesFor(n, t uint8, thorough bool) caseList {
 	for v := uint8(0); v < nv; v++ {
 		if thorough || reduced {
 			full(v)
+		}
+		if thorough {
 			continue
 		}
 		for op := uint8(1); op < uint8(len(opcodes)); op++ {
@@ -346,29 +356,36 @@ func main() {
 			return
 		}
 	}
+	if pf := os.Getenv("VERIF_C13_PROF"); pf != "" {
+		f, _ := os.Create(pf)
+		pprof.StartCPUProfile(f)
+		defer pprof.StopCPUProfile()
+	}
 	r := vlib.Start("C13")
 	dir, clean := vlib.Scratch("c13")
 	defer clean()
 	dnsfix.Quiet(dir)
 	db.SetRandForVerif(rand.New(&neverZero{}))
 
+	debug.SetGCPercent(400)
 	dbs := databases()
-	var envs []*env
+	envs := make([]*env, len(dbs)*len(dnsfix.Backends))
 	texts := map[string]string{}
 	for _, d := range dbs {
 		texts[d.name] = d.text
-		for _, b := range dnsfix.Backends {
-			p, err := dnsfix.Compile(dir, b, []byte(d.text))
-			if err != nil {
-				vlib.Infra("compile %s on %s: %v", d.name, b, err)
-			}
-			h, err := dnsfix.OpenHandler(b, p, dnsfix.HandlerOpts{})
-			if err != nil {
-				vlib.Infra("open %s on %s: %v", d.name, b, err)
-			}
-			envs = append(envs, newEnv(d.name, b, h))
-		}
 	}
+	vlib.ParallelFor(len(envs), func(i int) {
+		d, b := dbs[i/len(dnsfix.Backends)], dnsfix.Backends[i%len(dnsfix.Backends)]
+		p, err := dnsfix.Compile(dir, b, []byte(d.text))
+		if err != nil {
+			vlib.Infra("compile %s on %s: %v", d.name, b, err)
+		}
+		h, err := dnsfix.OpenHandler(b, p, dnsfix.HandlerOpts{})
+		if err != nil {
+			vlib.Infra("open %s on %s: %v", d.name, b, err)
+		}
+		envs[i] = newEnv(d.name, b, h)
+	})
 	twins := []int{1}
 	if r.Thorough() {
 		twins = []int{1, 2}
@@ -434,11 +451,12 @@ func main() {
 	r.Set("databases", len(dbs))
 	r.Set("backends", len(dnsfix.Backends))
 	r.Set("alphabet", map[string]int{"names": len(names), "types": len(types), "classes": len(classes), "opcodes": len(opcodes), "qdcounts": len(qdcounts), "edns_versions": len(versions), "udp_sizes": len(udpSizes), "option_lists": len(optLists), "extras": len(extras), "clients": len(clients), "transports": 2, "entry_points": 2})
-	factoring := "quick: header values alone on the full core, their full product and the pairs (D) only on the reduced core {root,apex,deleg,big,name255}x{A,DS,ANY}; option lists with 4 (size,DO,transport) combinations"
+	factoring := "quick: header values alone on the full core, their full product and the pairs (D) only on the reduced core {root,apex,deleg,big,name255}x{A,DS,ANY}; the client address not inside that full product; option lists with 2 (size,DO,transport) combinations for version 0 and 1 for unsupported versions"
 	if r.Thorough() {
 		factoring = "thorough: header group fully crossed with the core; option lists with every (size,DO,transport); pairs (D) on the full core with v0 and v1; twin option both in front of and behind the option list"
 	}
 	r.Set("rule", "structured product. CORE = name x type x EDNS version x database x backend, always a FULL product ("+fmt.Sprint(len(names)*len(types)*len(versions)*len(dbs)*len(dnsfix.Backends))+" cells). Each core cell is crossed with: A = advertised size x DO x transport (full); B = option list x (size,DO,transport); C = header group opcode x qdcount x class x extra-additional-RR x client address; D = every header-group value paired with every size/DO/transport/option value; M = the same message through fbserver's serveMux with qdcount 0/1/2 x transport. Factored (not fully crossed) because they cannot interact in the code: the header group (opcode, second question, class, extra RR; they only flow into SetReply and the class field of synthesised RRs) against the size group and the option lists (which only flow into OPT handling, location lookup and Scrub/Truncate) - covered pairwise by D. "+factoring+". Every message is packed and unpacked by miekg/dns first; messages it refuses never reach a handler and are counted separately. states = distinct (database, backend, query) cases; transitions = calls of the real ServeDNS (cases + metamorphic twins); evaluations = oracle applications (cases reaching the handler + metamorphic comparisons); nontrivial = cases with a reply other than REFUSED. Failing cases are simplified one dimension at a time towards the first value of each dimension until no single simplification keeps the same kind of failure; fingerprints name that local minimum.")
+	pprof.StopCPUProfile()
 	r.Assume = []string{
 		"miekg/dns Pack/Unpack define wire validity (the real server uses the same parser); bytes miekg cannot represent (compression pointers in questions, trailing garbage, TSIG) are outside the space",
 		"the package's random source is replaced by a deterministic one that never draws 0 and maxAnswer is 200, so the content of a reply is a function of the query; record order inside a section is not compared",
